@@ -105,7 +105,24 @@ def run(run: Run, pkg: Package) -> None:
                       s1_0, ds, atom_of, loc, positive=True, prep=PREP.get(m))
         check_algebra(run, "R-ALG", it0, f"{m}:s2[noshift]", f"s2 of {m} does not depend on the shift flag",
                       s2_0, d2s, atom_of, loc, positive=True, prep=PREP.get(m))
-    run.minimum("R-ALG", 18)
+    # harmonic/Hertz beyond contact (r > sigma): with an integer exponent the potential is a polynomial in r and the
+    # identities are decided for ALL r > 0 (no domain restriction); alpha = 2 (harmonic) .. 5.
+    m = "harmonic_hertz"
+    s_h = POTENTIALS[m][0]
+    it, (s1, s1rc, s2) = model_terms(pkg, m, True)
+    for k in (2, 3, 4, 5):
+        ref1 = sp.diff(s_h, r).subs(alpha, k)
+        ref2 = sp.diff(s_h, r, 2).subs(alpha, k)
+
+        def atom_k(t, k=k):
+            if t == ("sym", "alpha"):
+                return sp.Integer(k)
+            return atom_of(t)
+        check_algebra(run, "R-ALG", it, f"{m}:s1[alpha={k}, all r]", f"s1 of {m} with integer exponent {k} equals ds/dr for every r > 0, stretched pairs (r > sigma) included",
+                      s1, ref1, atom_k, it.fi.loc(), positive=True)
+        check_algebra(run, "R-ALG", it, f"{m}:s2[alpha={k}, all r]", f"s2 of {m} with integer exponent {k} equals d2s/dr2 for every r > 0, stretched pairs included",
+                      s2, ref2, atom_k, it.fi.loc(), positive=True)
+    run.minimum("R-ALG", 26)
 
     # ---- dispatcher
     it = interp(pkg, f"{CLS}.caller")
